@@ -1278,8 +1278,16 @@ fn check_spec_reserved_keys(key: &[u8], mut value: &[u8]) -> Result<(), Error> {
             // Public keys are stored as RLP byte strings, exactly as the decoder requires.
             Bytes::decode(&mut value)?;
         }
-        _ => return Ok(()),
+        _ => {
+            // Any other value is a single RLP item of either kind.
+            let header = Header::decode(&mut value)?;
+            value.advance(header.payload_length);
+        }
     };
+    // The value must be exactly one RLP item, otherwise the record cannot be decoded again.
+    if !value.is_empty() {
+        return Err(Error::InvalidRlpData(DecoderError::UnexpectedLength));
+    }
     Ok(())
 }
 
